@@ -714,3 +714,158 @@ Proof.
   - destruct (detach_sorted_shape _ _ _ (si_det_ok L sm cid uri hid dv HL)) as [Htag _]. exact Htag.
   - rewrite <- surjective_pairing. apply (si_prep_ok L sm cid uri hid dv HL HCin).
 Qed.
+
+(* ================================================================ 9. non-vacuity; what the premises exclude *)
+Module SVExample.
+  (* oracles given as plain functions: canonical bytes = a tag for the algorithm + etree's serialisation; a 20+-byte digest;
+     signatures are tagged strings that verify under the certificate "DER" only for key "K" *)
+  Definition alg_tag (a : canon_alg) : string :=
+    match a with
+    | CExc pl c => ("exc[" ++ pl ++ "]" ++ (if c then "c" else ""))%string
+    | C11 c => ("c11" ++ (if c then "c" else ""))%string
+    | CRec c => ("rec" ++ (if c then "c" else ""))%string
+    | CNull => "null"
+    end.
+  Definition t_canon (a : canon_alg) (n : node) : option string := Some (alg_tag a ++ ":" ++ etree_write n)%string.
+  Definition t_digest (alg bytes : string) : option string := Some ("01234567890123456789" ++ alg ++ bytes)%string.
+  Definition t_sign (key m b : string) : string := ("S" ++ key ++ m ++ b)%string.
+  Definition t_cert : cert := {| c_der := "DER"; c_not_before := {| i_sec := 100; i_nsec := 0 |}; c_not_after := {| i_sec := 200; i_nsec := 0 |} |}.
+  Definition t_sig_ok (c : cert) (m b s : string) : bool := (c_der c =?s "DER") && (s =?s t_sign "K" m b).
+  Definition t_parse_cert (d : string) : option cert := if d =?s "DER" then Some t_cert else None.
+  Definition t_now : instant := {| i_sec := 150; i_nsec := 0 |}.
+
+  Definition cfg0 (c : option Build.canon) : bcfg :=
+    {| b_sp_issuer := "https://sp.example/"; b_idp_issuer := "idp"; b_acs_url := "https://sp.example/acs?a=1&b=2";
+       b_idp_sso_url := "https://idp.example/sso"; b_idp_slo_url := "https://idp.example/slo"; b_force_authn := true; b_is_passive := false;
+       b_name_id_format := "urn:oasis:names:tc:SAML:1.1:nameid-format:emailAddress";
+       b_rac := Some {| rac_comparison := "exact"; rac_contexts := ["urn:c1"; "urn:c2"] |};
+       b_sign_authn_requests := true; b_sign_algorithm := ""; b_canonicalizer := c |}.
+  Definition keys0 : keycfg :=
+    {| k_enc_field := None; k_sig_field := None; k_enc_over := None;
+       k_sig_over := Some {| ok_signer := "K"; ok_pk := PK_RSA; ok_cert := "DER" |} |}.
+  Definition dummy_cx : sign_ctx := {| cx_hash := SHA256; cx_canon := default_canonicalizer; cx_keys := CtxKeyStore None |}.
+  Definition cx_of (cfg : bcfg) : sign_ctx := match signing_context cfg keys0 with ORet (Ok cx) => cx | _ => dummy_cx end.
+
+  (* everything the honest signer computes, from the oracles, for the AuthnRequest with request id [id] *)
+  Record run := { r_el' : node; r_dv : string; r_sv : string; r_bytes : string; r_d : string; r_det : node; r_sa : canon_alg;
+                  r_p : node; r_sib : string; r_sm : string; r_sg : node; r_signed : node }.
+  Definition honest (c : option Build.canon) (id : string) : option run :=
+    let cfg := cfg0 c in let cx := cx_of cfg in
+    let el := build_authn_request cfg id t_now in
+    match canon_apply (cx_canon cx) el, declared_method cx with
+    | Ok el', Some sm =>
+        match t_canon (signer_alg (cx_canon cx)) el' with
+        | Some bytes =>
+            match t_digest (digest_id (cx_hash cx)) bytes with
+            | Some d =>
+                let dv := base64_encode d in
+                match construct_signature cx el (Ok (dv, "x")) with
+                | ORet (Ok (_, sg0)) =>
+                    match si_detached el' sg0 with
+                    | Ok det =>
+                        match si_prep (canon_id (cx_canon cx)) det with
+                        | Ok (sa, p) =>
+                            match t_canon sa det with
+                            | Some sib =>
+                                let sv := base64_encode (t_sign "K" sm sib) in
+                                match construct_signature cx el (Ok (dv, sv)) with
+                                | ORet (Ok (_, sg)) =>
+                                    match sign_placement el' sg with
+                                    | ORet (Ok signed) =>
+                                        Some {| r_el' := el'; r_dv := dv; r_sv := sv; r_bytes := bytes; r_d := d; r_det := det; r_sa := sa;
+                                                r_p := p; r_sib := sib; r_sm := sm; r_sg := sg; r_signed := signed |}
+                                    | _ => None
+                                    end
+                                | _ => None
+                                end
+                            | None => None
+                            end
+                        | Err _ => None
+                        end
+                    | Err _ => None
+                    end
+                | _ => None
+                end
+            | None => None
+            end
+        | None => None
+        end
+    | _, _ => None
+    end.
+  (* the recipient's parser on the two byte strings that matter: the canonical SignedInfo and the canonical message *)
+  Definition t_reparse (r : run) (b : string) : option node :=
+    if b =?s r_sib r then Some (r_p r) else if b =?s r_bytes r then Some (r_el' r) else None.
+  Definition verify (r : run) : dsig_result :=
+    dsig_validate t_canon t_digest t_sig_ok t_parse_cert (t_reparse r) [t_cert] t_now (r_signed r).
+  Definition outcome (c : option Build.canon) (id : string) : option (dsig_result * node) :=
+    match honest c id with Some r => Some (verify r, r_el' r) | None => None end.
+  Definition is_ok_of (o : option (dsig_result * node)) : bool :=
+    match o with Some (DOk v, el') => node_eqb v el' | _ => false end.
+
+  (* a built AuthnRequest, signed, verifies: by evaluation, with the default canonicaliser (c14n 1.1) and with exc-c14n *)
+  Example accepted_c11 : is_ok_of (outcome None "id-1") = true.
+  Proof. vm_compute. reflexivity. Qed.
+  Example accepted_exc : is_ok_of (outcome (Some (CanonExc [] false)) "id-1") = true.
+  Proof. vm_compute. reflexivity. Qed.
+  Example accepted_rec_with_comments : is_ok_of (outcome (Some (CanonOther alg_rec_wc)) "id-1") = true.
+  Proof. vm_compute. reflexivity. Qed.
+
+  (* ... and BY THE THEOREM: the laws hold of these oracles and every premise holds of this run, so the hypotheses and
+     premises of signed_message_verifies are jointly satisfiable *)
+  Lemma t_sign_verifies : forall m b, t_sig_ok t_cert m b (t_sign "K" m b) = true.
+  Proof. intros m b. unfold t_sig_ok. cbn [c_der t_cert]. rewrite !String.eqb_refl. reflexivity. Qed.
+  Lemma t_sign_nonempty : forall m b, t_sign "K" m b <> "".
+  Proof. intros m b. unfold t_sign. cbn. discriminate. Qed.
+  Lemma t_digest_len : forall alg b d, t_digest alg b = Some d -> 20 <= String.length d.
+  Proof. intros alg b d H. inversion H. cbn [String.append String.length]. lia. Qed.
+
+  Definition dummy_run : run :=
+    {| r_el' := Text ""; r_dv := ""; r_sv := ""; r_bytes := ""; r_d := ""; r_det := Text ""; r_sa := CNull; r_p := Text ""; r_sib := "";
+       r_sm := ""; r_sg := Text ""; r_signed := Text "" |}.
+  Definition run_of (c : option Build.canon) (id : string) : run := match honest c id with Some r => r | None => dummy_run end.
+  Definition r1 : run := Eval vm_compute in run_of None "id-1".
+
+  Example accepted_by_theorem : honest None "id-1" = Some r1 /\ verify r1 = DOk (r_el' r1).
+  Proof.
+    split; [vm_compute; reflexivity|].
+    unfold verify.
+    apply (signed_message_verifies t_canon t_digest t_sig_ok t_parse_cert (t_reparse r1) t_sign "K" "DER" t_cert
+             t_sign_verifies t_sign_nonempty eq_refl t_digest_len
+             (cx_of (cfg0 None)) (build_authn_request (cfg0 None) "id-1" t_now) (r_dv r1) (r_sv r1) (r_el' r1) (r_sg r1) (r_signed r1)
+             t_now (r_sm r1) (r_bytes r1) (r_d r1) (r_det r1) (r_sa r1) (r_p r1) (r_sib r1) (r_el' r1));
+      try (vm_compute; reflexivity); try (vm_compute; tauto); try discriminate.
+  Qed.
+
+  (* ---- excluded by "the canonicaliser the signer runs is the one its identifier names": known finding exc-prefix-list.
+     An exclusive canonicaliser built with a prefix list signs with it, the Transform never declares the list, the verifier
+     canonicalises with the empty list: rejected, although every other premise holds ---- *)
+  Definition r_exc_saml : run := Eval vm_compute in run_of (Some (CanonExc ["saml"] false)) "id-1".
+  Lemma exc_prefix_list_refuted :
+    exists r, honest (Some (CanonExc ["saml"] false)) "id-1" = Some r /\
+              signable (r_el' r) = true /\
+              signer_alg (CanonExc ["saml"] false) <> alg_of_id (canon_id (CanonExc ["saml"] false)) /\
+              verify r = DErr.
+  Proof.
+    exists r_exc_saml. split; [vm_compute; reflexivity|]. split; [vm_compute; reflexivity|].
+    split; [vm_compute; discriminate|]. vm_compute. reflexivity.
+  Qed.
+
+  (* ---- excluded by signable: an ID with U+000D (known finding cr-in-config is the same mechanism for configuration
+     strings).  The signer writes the CR raw, the reader of the Signature element sees LF, the Reference no longer
+     matches the element's ID: the verifier reports a MISSING signature ---- *)
+  Definition cr_id : string := String "a" (String "013" "b").
+  Definition r_cr : run := Eval vm_compute in run_of None cr_id.
+  Lemma cr_in_id_refuted :
+    exists r, honest None cr_id = Some r /\ signable (r_el' r) = false /\ verify r = DMissing.
+  Proof. exists r_cr. split; [vm_compute; reflexivity|]. split; vm_compute; reflexivity. Qed.
+
+  (* ---- excluded by "In (canon_id c) c14n_ids": a canonicaliser whose identifier goxmldsig's verifier does not know ---- *)
+  Definition cfg_u : bcfg := cfg0 (Some (CanonOther "urn:my-c14n")).
+  Definition signed_u : node :=
+    Eval vm_compute in
+      match sign_element cfg_u keys0 (build_authn_request cfg_u "id-1" t_now) (Ok ("ZHY=", "eA==")) with ORet (Ok s) => s | _ => Text "" end.
+  Lemma unknown_canonicaliser_refuted :
+    sign_element cfg_u keys0 (build_authn_request cfg_u "id-1" t_now) (Ok ("ZHY=", "eA==")) = ORet (Ok signed_u) /\
+    find_signature signed_u = Err (EOther "invalid-c14n-method").     (* whatever the crypto values: before any oracle is asked *)
+  Proof. split; vm_compute; reflexivity. Qed.
+End SVExample.
